@@ -16,6 +16,8 @@ TAXA_POOL = [
     "meta/program", "meta/count/x", "a", "a/b", "a/bc", "a/b_c", "a/b/c", "a/b/c/d", "flow/loop",
     "flow/loop/for", "flow/loop/while", "flow/conditional", "op/mult", "op/multiply", "var/assignment",
     "x", "x/y", "call/print", "def/function",
+    # non-word characters INSIDE a segment: a pattern stops at a word boundary, not at a slash (seeded change C04-d)
+    "import/standard/urllib", "import/standard/urllib.request", "import/standard/xml.etree.ElementTree", "a/b-c", "a/b.c",
 ]
 # some paths, read as regular expressions, match OTHER paths too ("q.py" matches "q_py.py", "zz.py" matches "zzapy.py"):
 # a `.py` criterion is a pattern matched from the start, never a mere path (seeded change C04-c)
@@ -23,7 +25,8 @@ PROG_POOL = ["p1.py", "p2.py", "p10.py", "dir/p1.py", "dir/q.py", "q.py", "zz.py
 TAXON_PATTERNS = [
     "a", "a/b", "a/b$", "a/(b|bc)", "a/b.", "flow", "flow/loop", "flow/lo", "flow/.*for", ".*", "op|var", "op/mult",
     "op/mult$", "meta", "meta/program", "x", "x/y", "nothing/here", "var/assignment", "call", "a/b/c", "a/b_", "def/function",
-    "flow/conditional", "[ax]",
+    "flow/conditional", "[ax]", "import/standard/urllib", "import/standard/xml", "import/standard/xml.etree", "a/b-",
+    "import/standard/urllib\\.", "import",
 ]
 PROG_PATTERNS = ["p1.py", "p1\\.py", "dir/.*\\.py", "q.py", ".*\\.py", "p.*py$|zz.py", "zz.py", "nothing.py", "p1_bis.py", "(dir/)?p1.py"]
 PREDICATES = [
@@ -136,6 +139,30 @@ def gen_command(rng, db, ops=None, odd=True, **kw):
     base = operation.split()[0].lower() if operation.split() else operation
     n = rng.choice([1, 1, 1, 2, 2, 3]) if rng.random() > 0.03 else 0
     return {"operation": operation, "data": [gen_criterion(rng, db, base, **kw) for _ in range(n)]}
+
+
+def gen_pipeline(rng, db, n, reuse_p=0.35, **kw):
+    """Commands for one filter. A taxon pattern met earlier in the pipeline is reused with probability `reuse_p`
+    (alone or inside a triple): commands that resolve to the same set of taxa must not influence one another
+    (seeded change C06-d: a memoised set of programs mutated in place by a negated triple)."""
+    memory, cmds = [], []
+    for _ in range(n):
+        c = gen_command(rng, db, **kw)
+        data = []
+        for crit in c["data"]:
+            if memory and isinstance(crit, str) and not crit.endswith(".py") and rng.random() < reuse_p:
+                crit = rng.choice(memory)
+            elif memory and isinstance(crit, list):
+                crit = [rng.choice(memory) if rng.random() < reuse_p else crit[0], crit[1],
+                        rng.choice(memory) if rng.random() < reuse_p / 2 else crit[2]]
+            data.append(crit)
+        c["data"] = data
+        cmds.append(c)
+        for crit in data:
+            for pat in ([crit] if isinstance(crit, str) else [crit[0], crit[2]]):
+                if not pat.endswith(".py") and pat not in memory:
+                    memory.append(pat)
+    return cmds
 
 
 def all_patterns(cmds):
